@@ -310,8 +310,10 @@ def run(ctx):
         order = modules[:]
         if i % 2:
             rng.shuffle(order)
-        histories.append({"tag": f"dummy{i}", "kind": "dummy creations first", "modules": order, "dummies": rng.choice([150, 400, 900, 2500]),
-            "hashseed": rng.randrange(1, 2**32 - 1)})
+        # every dummy-creation history also runs the core warm-up (all public helpers of core.geometry / fields / vectors /
+        # coordinate_systems / points on two fresh instances of each system kind): state a helper keeps is populated by someone else
+        histories.append({"tag": f"dummy{i}", "kind": "core helpers exercised and dummy objects created first", "modules": order,
+            "dummies": rng.choice([150, 400, 900, 2500]), "warmup": True, "hashseed": rng.randrange(1, 2**32 - 1)})
     for i in range(n_raised):
         order = modules[:]
         if i % 2:
@@ -324,7 +326,7 @@ def run(ctx):
 
     def job(h):
         spec = {"mode": "perm", "modules": h["modules"], "calc": True, "argseed": argseed, "dummies": h.get("dummies", 0),
-            "counters": h.get("counters"), "srepr": True}
+            "counters": h.get("counters"), "srepr": True, "warmup": bool(h.get("warmup"))}
         return lambda: run_worker(ctx, h["tag"], spec, h["hashseed"])
     t0 = time.time()
     results = parallel([job(h) for h in histories])
@@ -551,7 +553,8 @@ def replay_spec(h, name):
         return {"mode": "fork", "tasks": [[name, h.get("counters") or {}]], "hashseed": h.get("hashseed", 0)}
     mods = h.get("modules", [])
     upto = mods[:mods.index(name) + 1] if name in mods else [name]
-    return {"mode": "perm", "modules": upto, "dummies": h.get("dummies", 0), "counters": h.get("counters"), "hashseed": h.get("hashseed", 0)}
+    return {"mode": "perm", "modules": upto, "dummies": h.get("dummies", 0), "counters": h.get("counters"), "warmup": bool(h.get("warmup")),
+        "hashseed": h.get("hashseed", 0)}
 
 
 def replay(ctx, rep):
